@@ -331,6 +331,9 @@ def cases(shard, tier):
         for a, b in NAME_PAIRS:
             if i % shard["parts"] == shard["part"]:
                 yield {"kind": "names", "files": [a, b]}
+                # the same twins holding services / unions / delimited / deprecated definitions, and mixed kinds
+                for body in ("service", "union", "delimited", "deprecated", "service+message", "message+service"):
+                    yield {"kind": "names", "files": [a, b], "body": body}
             i += 1
         for d in DIRNAMES:
             if i % shard["parts"] == shard["part"]:
@@ -396,16 +399,20 @@ def check_case(case, R: engine.Acc):
         files = {}
         for i, f in enumerate(case["files"]):
             # distinct contents and lengths: same-name files are distinct definitions
-            files["rns/" + f] = "".join("uint8 f%d\n" % j for j in range(i + 1)) + "@sealed\n"
+            fields = "".join("uint8 f%d\n" % j for j in range(i + 1))
+            body = case.get("body", "message").split("+")
+            body = body[i % len(body)]
+            files["rns/" + f] = {"message": fields + "@sealed\n", "service": fields + "@sealed\n---\n" + fields + "@sealed\n", "union": "@union\nuint16 alt\n" + fields + "@sealed\n",
+                                 "delimited": fields + "@extent 64 * 8\n", "deprecated": "@deprecated\n" + fields + "@sealed\n"}[body]
         try:
             o = api.read_namespace_tree(files, "rns", timeout=30, allow_unregulated_fixed_port_id=True)
         except (OSError, ValueError) as ex:  # the scratch file system refused the name: not a case
             R.counters["unwritable_names"] += 1
             return
-        R.case(case["files"], nontrivial=True, sample=len(case["files"]) == 2)
+        R.case(case["files"] + [case.get("body", "message")], nontrivial=True, sample=len(case["files"]) == 2 and "body" not in case)
         verdict(o, R, case, None)
         o2 = api.read_files_tree(files, ["rns/" + f for f in case["files"]][:1], ["rns"], timeout=30, allow_unregulated_fixed_port_id=True)
-        R.case(["read_files"] + case["files"], nontrivial=True, sample=False)
+        R.case(["read_files"] + case["files"] + [case.get("body", "message")], nontrivial=True, sample=False)
         verdict(o2, R, {**case, "api": "read_files"}, None)
 
 
